@@ -25,6 +25,16 @@ CHECKS = {
    text='Every prior Manifest state of a 45-entry menu (absent, flat, nested x compression, equal/sub/super/disjoint and stale duplicates, parent+child duplicates, unregistered valid/invalid/compressed Manifests, several Manifests per directory, same-directory chains, IGNORE, entry naming a directory) x 8 edits x option combinations x whole-tree and sub-directory targets x library and CLI, plus all two-round edit/update histories; after every update that completes, the disk is re-read by the reference parser and must describe the updated directory exactly (each file once, true size/digests, requested hashes, chain intact) and a fresh gemato verify must succeed.',
    note='Trusted: gverif/refverify.py + refmanifest.py. One base tree (4 files, 3 directories). Updates that raise are not judged here (C10/C18). Two genuine defects are listed in known_findings.json (one pinned by an existing test, one not small to repair).',
    ref='DESIGN.md §3 C03'),
+ 'C04': dict(level='model_checking',
+   technique='exhaustive enumeration of line-class sequences through the real load() vs a reference clear-sign acceptor; exhaustive single-mutation differential against real gpg',
+   text='Part A: every sequence of <=5 (quick) / <=6 (thorough) lines over 14 concrete line classes, with/without final newline, verification off / accepting / rejecting recording backend (3.3M / 47M loads) is fed to the real ManifestFile.load and compared with a reference acceptor written from the statement and RFC 4880 (entries, exact text handed to verify_file, signed flag, exception class); all 70 implementation (state x class) pairs must be exercised. Part B: every single textual mutation from a fixed menu of six Manifests genuinely clear-signed with gpg (incl. --not-dash-escaped) is loaded with the real backend; whenever load succeeds, gpg must accept the same text and the reference-parsed entries of the cleartext gpg outputs must equal the loaded entries.',
+   note='Trusted: gverif/c04ref.py (reference acceptor), refmanifest.py, GnuPG 2.2.40 as the authority on what was authenticated. Arguable documents (whitespace-suffixed armor lines, opaque header/signature content, END line without newline) are judged under every defensible reading and only counted DONT_CARE when the readings disagree.',
+   ref='DESIGN.md §3 C04'),
+ 'C10': dict(level='model_checking',
+   technique='explicit-state BFS over operation histories on the real loader/CLI with canonical state hashing; write-audit and snapshot invariants on every transition',
+   text='From 6 base states, all histories of <=4 (quick) / <=5 (thorough) operations over a 24-operation alphabet (loader lifecycle, verify/lookups, directory/single-path updates incl. ones that fail part-way through invalid path, symlink loop or injected OSError, five save variants, CLI commands, tree edits) are executed; on every transition: no data file changes, no write-type audit event and no Manifest change outside a save, and across saves DIST/IGNORE/TIMESTAMP lines, entry tags and out-of-scope entries are preserved per logical Manifest.',
+   note='Trusted: sys.addaudithook write events + lstat/byte snapshots; reference parser for Manifest comparison. A loader is discarded when another actor (CLI update) rewrites Manifests (single-actor property).',
+   ref='DESIGN.md §3 C10'),
 }
 NOT_YET = {}
 
